@@ -93,6 +93,11 @@ def random_case(rng, L):
             steps.append(sop(insert(0, late.pop())))
         elif i == L // 2 and rng.random() < 0.2:
             steps.append(sop(REBUILD))
+        elif i == L // 2 and len(menu) >= 3 and rng.random() < 0.4:
+            # a whole context type leaves (and may come back): the others keep their evaluation order
+            gone = rng.choice([c for c in menu if c not in late] or menu)
+            steps.append(sop(remove(0, gone)))
+            if rng.random() < .5: late.append(gone)
     return scenario(menu, [0], cfg, steps)
 
 def cases(tier, rng):
@@ -136,7 +141,7 @@ STAGES = [dict(name='consumption', mode='app', coq='Check.C05w', cases=cases, no
                exhaustive={'thorough': True, 'quick': True},
                rule='a consuming (or non-consuming) action on each of 9 inputs (Ctrl+K, K, Ctrl+mouse button, motion, Shift+wheel, gamepad button, gamepad axis, Ctrl+Shift+K, Shift+Alt+mouse button) whose scripted final state is Fired / Ongoing / None / mixed, '
                     'followed - in the same context or in a lower-priority one, with equal or different gamepad settings - by probed bindings of all 22 relation classes (incl. bindings requiring a superset / subset / overlap of the consumed modifier keys) (same key, same key other modifiers, '
-                    'other key needing the used modifier, other modifier, other devices); an idle frame and a further frame check that nothing stays hidden; a consuming action (Cumulative or MaxAbs, bool or 1D) with three bindings under every subset of them pressed, with and without scripted conditions, so that several inputs contribute in one frame; a context with unrelated, partly released inputs inserted or rebuilt between a consuming higher-priority context and a lower-priority listener while the contested input is held; random mixes (some contexts created late, rebuilds) of 2-4 contexts with 1-3 actions of 1-3 '
+                    'other key needing the used modifier, other modifier, other devices); an idle frame and a further frame check that nothing stays hidden; a consuming action (Cumulative or MaxAbs, bool or 1D) with three bindings under every subset of them pressed, with and without scripted conditions, so that several inputs contribute in one frame; a context with unrelated, partly released inputs inserted or rebuilt between a consuming higher-priority context and a lower-priority listener while the contested input is held; random mixes (some contexts created late, rebuilds, a whole context type leaving in mid-run) of 2-4 contexts with 1-3 actions of 1-3 '
                     'bindings and scripted conditions at both levels. non-trivial = some action fires; distinct = distinct scenario text')]
 CLAUSES = {1: 'an input related to one consumed earlier in the frame did not read as inactive', 2: 'a read differs from the raw input although nothing related to it was consumed before it in this frame (earlier actions affected, hidden without consumption, or hidden across frames)',
            8: 'panic', 9: 'malformed trace', 10: 'panic'}
